@@ -1,7 +1,6 @@
 (** C06 — property theorems only.  Each is closed by [exact] of a lemma in Proofs*.v and followed by
     [Print Assumptions]. *)
-From V Require Import Base.Util Gen.C06_tables_gen C06.Model C06.Spec C06.Proofs C06.ProofsMap C06.ProofsWriter C06.ProofsCli C06.ProofsDefs C06.Corr C06.ProofsCorr.
-From V Require C14.Model.
+From V Require Import Base.Util Gen.C06_tables_gen C06.Model C06.Spec C06.Proofs C06.ProofsMap C06.ProofsWriter C06.ProofsCli C06.Corr C06.ProofsCorr.
 From V Require C06.Examples.
 
 Theorem C06_alphabet_decodes :
@@ -164,22 +163,4 @@ Theorem C06_named_write_for_mapped :
     fmap_lookup fmap (p_file p) = Some (e_fi e).
 Proof. exact named_write_for_mapped_lemma. Qed.
 Print Assumptions C06_named_write_for_mapped.
-
-Theorem C06_operation_definitions_are_mapped :
-  forall fmap t d B st,
-  sw_run fmap (map conv_wop (C14.Model.dts_ops t d B)) = Some st ->
-  (forall i k n np p sel b,
-     nth_error (C14.Model.defs d) i = Some (C14.Model.OpDef k (Some (n, np)) p sel) -> nth_error B i = Some b ->
-     C14.Model.pbuiltin np = false ->
-     let o := C14.Model.t_base t in
-     mapped_in fmap st (C14.Model.operation_name o (Some (n, np)) ++ C14.Model.operation_result_type_suffix t) (conv_pos np) n /\
-     mapped_in fmap st (C14.Model.operation_name o (Some (n, np)) ++ C14.Model.variables_type_suffix t) (conv_pos np) n /\
-     mapped_in fmap st (C14.Model.operation_var o k (Some (n, np))) (conv_pos np) n) /\
-  (forall i name p b,
-     nth_error (C14.Model.defs d) i = Some (C14.Model.FragDef name p) -> nth_error B i = Some b ->
-     C14.Model.pbuiltin p = false ->
-     mapped_in fmap st (name ++ C14.Model.fragment_type_suffix t) (conv_pos p) name /\
-     mapped_in fmap st (C14.Model.fragment_var (C14.Model.t_base t) name) (conv_pos p) name).
-Proof. exact operation_definitions_are_mapped_lemma. Qed.
-Print Assumptions C06_operation_definitions_are_mapped.
 
